@@ -1,5 +1,6 @@
 /-
-  Lemmas about the object domain of C07 (Cello/Exn.lean: `inDomain`, `normalizeMsg`) and about `catchPhase`.
+  Lemmas about the object domain of C07 (Cello/Exn.lean: `inDomain`, `normalizeMsg`) and about `catchPhase`
+  (for any filter walk `dec`: the current walk by index and the OLD foreach walk).
 -/
 import Cello.Exn
 import CelloProofs.Lemmas.ExnWalk
@@ -38,63 +39,68 @@ theorem eval_exc_ne_zero (p : Prog) : ∀ (x e : Nat), x ≠ 0 → inDomain p = 
         simp at he; subst he; exact h1
 
 /-- `exception_try_end(); exception_catch(…)` after a body that completed: nothing is pending, nothing happens -/
-theorem catchPhase_inactive (c : Bool) (runH : Nat → St → St × List Ev × Sig) (f : List Nat) (s3 : St) (t : List Ev)
+theorem catchPhase_inactive (dec : List Nat → Nat → Walk) (c : Bool) (runH : Nat → St → St × List Ev × Sig)
+    (f : List Nat) (s3 : St) (t : List Ev)
     (d : Nat) (hd : s3.depth = d + 1) (ha : s3.active = false) :
-    catchPhase c runH f s3 t = ({ s3 with depth := d }, t, .normal) := by
+    catchPhase dec c runH f s3 t = ({ s3 with depth := d }, t, .normal) := by
   simp [catchPhase, hd, ha]
 
-/-- … after the else-branch (`exception_try_fail`), duplicate-free filter, real object, matching: the handler runs
-    with the object bound, one level further out, and nothing is pending any more -/
-theorem catchPhase_match (runH : Nat → St → St × List Ev × Sig) (f : List Nat) (s3 : St) (t : List Ev)
-    (d : Nat) (hd : s3.depth = d + 1) (ha : s3.active = true) (ho : s3.obj ≠ 0) (hnd : f.Nodup)
-    (hm : fmatch f s3.obj = true) :
-    catchPhase true runH f s3 t =
+/-- … after the else-branch (`exception_try_fail`), real object, the filter walk finds it: the handler runs with the
+    object bound, one level further out, and nothing is pending any more -/
+theorem catchPhase_match (dec : List Nat → Nat → Walk) (runH : Nat → St → St × List Ev × Sig) (f : List Nat) (s3 : St)
+    (t : List Ev) (d : Nat) (hd : s3.depth = d + 1) (ha : s3.active = true) (ho : s3.obj ≠ 0)
+    (hm : dec f s3.obj = .matched) :
+    catchPhase dec true runH f s3 t =
       ((runH s3.obj { s3 with depth := d, active := false }).1,
        t ++ [.handler s3.obj] ++ (runH s3.obj { s3 with depth := d, active := false }).2.1,
        (runH s3.obj { s3 with depth := d, active := false }).2.2) := by
-  simp [catchPhase, hd, ha, catchDecision_nodup f s3.obj ho hnd, hm, ho]
+  simp [catchPhase, hd, ha, hm, ho]
 
-/-- … not matching: the exception continues to the enclosing block's buffer, or ends the program -/
-theorem catchPhase_nomatch (c : Bool) (runH : Nat → St → St × List Ev × Sig) (f : List Nat) (s3 : St) (t : List Ev)
-    (d : Nat) (hd : s3.depth = d + 1) (ha : s3.active = true) (ho : s3.obj ≠ 0) (hnd : f.Nodup)
-    (hm : fmatch f s3.obj = false) :
-    catchPhase c runH f s3 t =
+/-- … the walk ends without a match: the exception continues to the enclosing block's buffer, or ends the program -/
+theorem catchPhase_nomatch (dec : List Nat → Nat → Walk) (c : Bool) (runH : Nat → St → St × List Ev × Sig)
+    (f : List Nat) (s3 : St) (t : List Ev)
+    (d : Nat) (hd : s3.depth = d + 1) (ha : s3.active = true) (hm : dec f s3.obj = .exhausted) :
+    catchPhase dec c runH f s3 t =
       ({ s3 with depth := d }, t, if d ≥ 1 then .jump (d - 1) else .fatal) := by
-  simp only [catchPhase, hd, ha, catchDecision_nodup f s3.obj ho hnd, hm]
+  simp only [catchPhase, hd, ha, hm]
   by_cases h : d ≥ 1 <;> simp [h]
 
-/-- … a filter with a repeated object and an exception it does not list: `exception_catch` does not return -/
-theorem catchPhase_dup_hangs (c : Bool) (runH : Nat → St → St × List Ev × Sig) (f : List Nat) (s3 : St) (t : List Ev)
-    (d : Nat) (hd : s3.depth = d + 1) (ha : s3.active = true) (ho : s3.obj ≠ 0) (hdup : ¬ f.Nodup)
-    (hm : s3.obj ∉ f) :
-    catchPhase c runH f s3 t = ({ s3 with depth := d }, t, .hang) := by
-  simp [catchPhase, hd, ha, catchDecision_dup_hangs f s3.obj ho hdup hm]
+/-- … the walk does not end (OLD foreach walk on a repeated object): `exception_catch` does not return -/
+theorem catchPhase_hangs (dec : List Nat → Nat → Walk) (c : Bool) (runH : Nat → St → St × List Ev × Sig)
+    (f : List Nat) (s3 : St) (t : List Ev)
+    (d : Nat) (hd : s3.depth = d + 1) (ha : s3.active = true) (hm : dec f s3.obj = .hang) :
+    catchPhase dec c runH f s3 t = ({ s3 with depth := d }, t, .hang) := by
+  simp [catchPhase, hd, ha, hm]
 
 /-- a `throw` with a malformed message is, for the machine, a `throw` of FormatError -/
-theorem run_normalizeMsg (c : Bool) (m : Nat) (p : Prog) :
-    ∀ (x : Nat) (s : St), (run c m (normalizeMsg p) x s).2 = (run c m p x s).2 ∧
-      (run c m (normalizeMsg p) x s).1 = (run c m p x s).1 := by
+theorem run_normalizeMsg (dec : List Nat → Nat → Walk) (c : Bool) (m : Nat) (p : Prog) :
+    ∀ (x : Nat) (s : St), (runWith dec c m (normalizeMsg p) x s).2 = (runWith dec c m p x s).2 ∧
+      (runWith dec c m (normalizeMsg p) x s).1 = (runWith dec c m p x s).1 := by
   induction p with
   | stmt t => intro x s; simp [normalizeMsg]
   | throw e => intro x s; simp [normalizeMsg]
-  | throwBad e => intro x s; simp [normalizeMsg, run, throwObj]
+  | throwBad e => intro x s; simp [normalizeMsg, runWith, throwObj]
   | rethrow => intro x s; simp [normalizeMsg]
-  | call p ih => intro x s; simpa [normalizeMsg, run] using ih x s
+  | call p ih => intro x s; simpa [normalizeMsg, runWith] using ih x s
   | seq p q ihp ihq =>
     intro x s
-    have hp : run c m (normalizeMsg p) x s = run c m p x s := Prod.ext (ihp x s).2 (ihp x s).1
-    have hq : ∀ s, run c m (normalizeMsg q) x s = run c m q x s := fun s => Prod.ext (ihq x s).2 (ihq x s).1
-    simp [normalizeMsg, run, hp, hq]
+    have hp : runWith dec c m (normalizeMsg p) x s = runWith dec c m p x s := Prod.ext (ihp x s).2 (ihp x s).1
+    have hq : ∀ s, runWith dec c m (normalizeMsg q) x s = runWith dec c m q x s := fun s => Prod.ext (ihq x s).2 (ihq x s).1
+    simp [normalizeMsg, runWith, hp, hq]
   | tryCatch b f h ihb ihh =>
     intro x s
-    have hb : ∀ s, run c m (normalizeMsg b) x s = run c m b x s := fun s => Prod.ext (ihb x s).2 (ihb x s).1
-    have hh : run c m (normalizeMsg h) = run c m h := by
+    have hb : ∀ s, runWith dec c m (normalizeMsg b) x s = runWith dec c m b x s := fun s => Prod.ext (ihb x s).2 (ihb x s).1
+    have hh : runWith dec c m (normalizeMsg h) = runWith dec c m h := by
       funext y s; exact Prod.ext (ihh y s).2 (ihh y s).1
-    simp [normalizeMsg, run, hb, hh]
+    simp [normalizeMsg, runWith, hb, hh]
+
+theorem runWith_normalizeMsg_eq (dec : List Nat → Nat → Walk) (c : Bool) (m : Nat) (p : Prog) (x : Nat) (s : St) :
+    runWith dec c m (normalizeMsg p) x s = runWith dec c m p x s :=
+  Prod.ext (run_normalizeMsg dec c m p x s).2 (run_normalizeMsg dec c m p x s).1
 
 theorem run_normalizeMsg_eq (c : Bool) (m : Nat) (p : Prog) (x : Nat) (s : St) :
     run c m (normalizeMsg p) x s = run c m p x s :=
-  Prod.ext (run_normalizeMsg c m p x s).2 (run_normalizeMsg c m p x s).1
+  runWith_normalizeMsg_eq catchDecision c m p x s
 
 theorem nest_normalizeMsg (p : Prog) : nest (normalizeMsg p) = nest p := by
   induction p <;> simp_all [normalizeMsg, nest]
